@@ -230,6 +230,10 @@ func (s *kvSubj[K]) ModelApply(op Op) {
 	case "PutSame":
 		k, v := s.samePair(op)
 		s.modelPut(k, v)
+	case "Churn": // a stranger comes and goes (model unchanged); one present key is rewritten every time: its last value stands
+		if len(s.ents) > 0 && op.A[0] > 0 {
+			s.modelPut(s.ents[op.A[1]%len(s.ents)].k, "c"+strconv.Itoa(op.ID)+"."+strconv.Itoa(op.A[0]-1))
+		}
 	case "Remove":
 		if i := s.findKey(s.d.At(op.A[0])); i >= 0 {
 			s.ents = slices.Delete(slices.Clone(s.ents), i, i+1)
@@ -428,6 +432,41 @@ func (s *kvSubj[K]) Step(op Op, o *Oracle) {
 			n = 6
 		}
 		s.counted(o, "Put", n, func() { s.m.Put(k, v) })
+	case "Churn":
+		var stranger *K
+		for i := range s.d.Probes {
+			if s.findKey(s.d.Probes[i]) < 0 && s.kclass(s.d.Probes[i]) == s.kclass(s.d.Probes[i]) {
+				stranger = &s.d.Probes[i]
+				break
+			}
+		}
+		if s.cfg.VCmp == "len" || s.cfg.VCmp == "fold" {
+			return // (never generated: the values written on the way would evict pairs by class)
+		}
+		for i := 0; i < op.A[0] && s.d.Elem != "float"; i++ {
+			v := "c" + strconv.Itoa(op.ID) + "." + strconv.Itoa(i)
+			if stranger != nil {
+				s.m.Put(*stranger, v+"s")
+				s.m.Remove(*stranger)
+			}
+			if len(s.ents) > 0 {
+				s.m.Put(s.ents[op.A[1]%len(s.ents)].k, v)
+			}
+			if got := s.m.Size(); got != len(s.ents) && (o.On("C01") || o.On("C10")) {
+				tag := "C01"
+				if !o.On("C01") {
+					tag = "C10"
+				}
+				o.Fail(tag, "size", "round %d of a long run of Put/Remove of an absent key and Put of a present one: Size()=%d, live keys %d", i, got, len(s.ents))
+				break
+			}
+			if i%512 == 0 {
+				opSteps = 0
+			}
+		}
+		if s.d.Elem == "float" {
+			return
+		}
 	case "Remove":
 		k := s.d.At(op.A[0])
 		n := 1
